@@ -666,3 +666,9 @@ M("opc14-next-not-checked", "C02", LL, "        if code[offs] == op[\"YIELD_FROM
 M("opc14-is-async-false", "C02", LL, "            # Async calls have lasti pointing at YIELD_FROM or LOAD_CONST\n            is_async = True\n", "            # Async calls have lasti pointing at YIELD_FROM or LOAD_CONST\n            is_async = False\n", ["OPC-14"])
 M("opc14-step-inverted", "C02", LL, "            if code[offs] == op[\"YIELD_FROM\"]:\n                # If lasti points", "            if code[offs] != op[\"YIELD_FROM\"]:\n                # If lasti points", ["OPC-14", "OPC-5"])
 
+# ---------------------------------------------------------------- RUN-1 (3.9 / 3.10 reader)
+M("run1-stacktop-test-inverted", "C07", L310, "    if frame_raw.f_stacktop == 0:\n        # Frames that are currently executing have a NULL stacktop", "    if frame_raw.f_stacktop != 0:\n        # Frames that are currently executing have a NULL stacktop", "RUN-1")
+M("run1-materialise-inverted", "C07", L310, "    if frame_raw.f_stacktop == 0:\n        if details.blocks:", "    if frame_raw.f_stacktop != 0:\n        if details.blocks:", "RUN-1")
+M("run1-max-when-empty", "C07", L310, "        if details.blocks:\n            stack_validity_limit = max(", "        if not details.blocks:\n            stack_validity_limit = max(", ["RUN-1", "FORM-2"])
+M("run1-unbounded-top", "C07", L310, "        assert stack_start_offset <= stack_top_offset <= end_offset\n", "        assert stack_start_offset <= stack_top_offset\n", "RUN-1")
+
